@@ -67,6 +67,9 @@ type JobResult struct {
 	Truncated    bool           `json:"truncated"`
 	Funcs        []string       `json:"funcs,omitempty"`
 	Approx       map[string]int `json:"approx,omitempty"` // approximations used (stubs etc.)
+	SecondOpinions       int `json:"second_opinions,omitempty"`
+	SolverDisagreements  int `json:"solver_disagreements,omitempty"`
+	SecondOpinionUnknown int `json:"second_opinion_unknown,omitempty"`
 }
 
 type Explorer struct {
@@ -81,6 +84,7 @@ type Explorer struct {
 	declared map[string]bool
 	defs     map[string]string // interned long terms: term -> name
 	decls    []string          // every declaration/definition sent so far (for one-shot fallbacks)
+	secondAsked map[string]int
 	OneShots int
 	ndefs    int
 
@@ -520,6 +524,19 @@ func (e *Explorer) assert(cv value, label string) {
 	}
 	c := cv.(symB).t
 	r := e.satKeep(mkNot(c), true)
+	if r == "unsat" && SecondOpinion > 0 && e.secondAsked[label] < SecondOpinion {
+		// thorough tier: a sample of the discharged obligations is re-decided by two other solvers
+		e.secondAsked[label]++
+		e.res.SecondOpinions++
+		for _, alt := range [][]string{{"z3-new", "-in", "-T:30"}, {"cvc5", "--lang=smt2", "--tlimit=30000", "-"}} {
+			if a := e.oneShotWith(alt, mkNot(c)); a == "sat" {
+				e.res.SolverDisagreements++
+				e.noteInconclusive("solver disagreement at assertion " + label + ": z3 says unsat, " + alt[0] + " says sat")
+			} else if a == "unknown" {
+				e.res.SecondOpinionUnknown++
+			}
+		}
+	}
 	switch r {
 	case "sat":
 		script := e.model()
